@@ -397,3 +397,8 @@ BOUNDS = {
 }
 OUTSIDE = ["str/bytes start values of sum", "mapping arguments to dict", "NaN / partial orders", "lengths above the bound", "async key functions are covered by C03"]
 NONTRIVIAL_RULE = "aggregations: >=2 items on the path (ties are covered because keys are unconstrained solver variables and every order-type is a path)"
+
+MANIFEST = {
+    "text": 'Differential bounded symbolic execution of the aggregations against the builtins / functools.reduce / heapq with unconstrained keys and n, symbolic flags for key/default/reverse/initial, list / one-shot iterator / async generator inputs, plus concrete pools (mixed numerics incl. inexact floats, hashables, unhashables) chosen by symbolic selectors; argument objects are snapshotted and compared after the call. Nothing is claimed outside the bounds listed in the evidence file.',
+    "note": 'Trusted: CrossHair 0.0.110 (with short-circuiting off and a refined callable() model), z3 5.1.0, the harness oracles. C oracles over pool values run under NoTracing; one open known finding (float summation).',
+}
